@@ -150,6 +150,14 @@ def history_scenarios():
     out.append(sc("resubmit:with-dependent", "resubmit", [[XP("xp", [J("a", 1, code=1), {"op": "wait", "var": "a"}, dict(J("a2", 1, code=0), dup_of="a", after_fail=True),
                                                                      J("b", 2, [("a2", "up")])])]]))
     out.append(sc("resubmit:second-experiment", "resubmit", [[XP("xp", [J("a", 1, code=1)]), XP("xp", [J("a_", 1, code=0), J("b", 2, [("a_", "up")])])]]))
+    # re-submission as soon as the state of the job says ERROR (the script polls job.state instead of calling job.wait()): the end of
+    # the failed submission's own bookkeeping may still be ahead
+    for code2 in (0, 1):
+        out.append(sc(f"resubmit:on-error-state:{code2}", "resubmit", [[XP("xp", [J("a", 1, code=1), {"op": "await_state", "var": "a", "state": "ERROR"},
+                                                                                  dict(J("a2", 1, code=code2), dup_of="a", after_fail=True), J("b", 2, [("a2", "up")]), J("c", 3)])]]))
+        # ... and nothing depends on the re-submitted job: the experiment must still wait for it
+        out.append(sc(f"resubmit:on-error-state:{code2}:alone", "resubmit", [[XP("xp", [J("a", 1, code=1), {"op": "await_state", "var": "a", "state": "ERROR"},
+                                                                                        dict(J("a2", 1, code=code2), dup_of="a", after_fail=True), J("c", 3)])]]))
     # failed in an earlier experiment (the failure marker is on disk until the new process reaches its body), then submitted twice in a
     # row in the next one: the second submission is a duplicate of the first - also when the first one has to wait for a token
     for pre in ("none", "token"):
